@@ -121,6 +121,8 @@ func main() {
 		f, err := fox.New()
 		hx.Fatal(err)
 		w := &world{f: f, rid: map[*fox.Route]uint64{}}
+		tr := newTracker() // what the calls' own results say is registered (independent of every read API)
+		readFailures := 0
 		pool := make([]string, rnd.Range(5, 12))
 		hostPct := hx.Pick(rnd, []int{0, 0, 30, 70})
 		for i := range pool {
@@ -240,6 +242,14 @@ func main() {
 					forcedStep{"KDelete", "GET", pre + "/bar/x"})
 				st.Count("scenario:nested-update-then-write-below")
 			}
+			if hi%6 == 1 && si == 2 && w.txn == nil {
+				// scripted: an infix catch-all route with two routes below it, then its deletion: the node
+				// stays as an intermediary node with > 1 children (its precomputed inode chain must lose the route)
+				forced = append(forced, forcedStep{"KHandle", "GET", pool[0]}, forcedStep{"KHandle", "GET", pool[1]},
+					forcedStep{"KHandle", "GET", pool[2]}, forcedStep{"KDelete", "GET", pool[0]}, forcedStep{"KHandle", "GET", pool[3]},
+					forcedStep{"KHandle", "GET", pool[4]}, forcedStep{"KDelete", "GET", pool[3]})
+				st.Count("scenario:infix-delete-keeps-node")
+			}
 			isForced := false
 			if len(forced) > 0 {
 				kind, method, pat = forced[0].kind, forced[0].method, forced[0].pat
@@ -324,6 +334,42 @@ func main() {
 				} else {
 					err = f.Updates(func(txn *fox.Txn) error { return txn.Truncate(tm...) })
 				}
+			}
+			switch kind {
+			case "KBegin":
+				tr.begin()
+			case "KCommit":
+				tr.commit()
+			case "KAbort":
+				tr.abort()
+			case "KHandle":
+				tr.add(method, pat, err)
+			case "KDelete":
+				tr.del(method, pat, err)
+			case "KTruncate":
+				if err == nil {
+					if len(tm) == 0 {
+						for k := range tr.cur() {
+							delete(tr.cur(), k)
+						}
+					}
+					for _, m := range tm {
+						tr.truncate(m)
+					}
+				}
+			}
+			if bad := readsAgree(f, w.txn, tr, pool, methods, si%4 == 3); bad != "" && readFailures < 3 {
+				readFailures++
+				// a read API disagrees with the registered set: reported through a case whose specification
+				// check fails (QHas of a key that ic_set does not contain, answered true)
+				var set []string
+				for k := range tr.cur() {
+					set = append(set, hx.Pair(hx.Bytes(k[0]), hx.Bytes(k[1])))
+				}
+				sort.Strings(set)
+				cs.Add("(CIter {| ic_tree := []; ic_set := "+hx.List(set)+"; ic_queries := [QHas (S2B \"read-API\") (S2B \"disagrees with the registered set\") true] |})",
+					fmt.Sprintf("READ API DISAGREES WITH THE REGISTERED SET: %s ;; after step %d (%s %s %q) of history: %s", bad, si, kind, method, pat, strings.Join(human, " ; ")))
+				st.Count("reads-agree:failures")
 			}
 			oterm, oname := outcomeTerm(err)
 			if err == nil && (kind == "KHandle" || kind == "KUpdate" || kind == "KDelete") {
@@ -575,6 +621,7 @@ func runC07(out, tier string, shards int, rnd *hx.Rand) {
 	}
 	nontrivial := 0
 	opts := []fox.GlobalOption{fox.WithNoMethod(true), fox.WithAutoOptions(true), fox.WithRedirectTrailingSlash(true)}
+	c07OrderSweep(rnd, opts, cs, st, tier)
 	for ci := 0; ci < n; ci++ {
 		func() {
 			var trace []string
@@ -748,4 +795,306 @@ func runC07(out, tier string, shards int, rnd *hx.Rand) {
 	hx.Fatal(cs.Write(out, shards))
 	hx.Fatal(st.Write(out))
 	fmt.Printf("c02[C07]: %d pairs\n", cs.Len())
+}
+
+// c07Cuts derives from one pattern the family of related patterns that share tree nodes with it:
+// its prefixes at every syntactic boundary (before '{' and '*', after '}', after '/', and for the
+// hostname part after '.'), the pattern itself and short extensions. Only patterns a fresh router
+// accepts are kept.
+func c07Cuts(opts []fox.GlobalOption, p string) []string {
+	var cand []string
+	add := func(q string) {
+		if q == "" {
+			return
+		}
+		for _, c := range cand {
+			if c == q {
+				return
+			}
+		}
+		cand = append(cand, q)
+	}
+	hostEnd := 0
+	if p[0] != '/' {
+		hostEnd = strings.IndexByte(p, '/')
+	}
+	for i := 1; i <= len(p); i++ {
+		cut := i == len(p) || p[i] == '{' || p[i] == '*' || p[i-1] == '}' || p[i-1] == '/' || (i < hostEnd && p[i-1] == '.')
+		if !cut {
+			continue
+		}
+		q := p[:i]
+		if i < hostEnd {
+			// a hostname prefix needs a path: whole labels only
+			q = strings.TrimSuffix(q, ".")
+			add(q + "/")
+			continue
+		}
+		add(q)
+		add(strings.TrimSuffix(q, "/"))
+	}
+	add(p + "/")
+	add(p + "/x")
+	add(p + "x")
+	add(p[:len(p)-1] + "~")
+	var out []string
+	for _, q := range cand {
+		f, err := fox.New(opts...)
+		hx.Fatal(err)
+		if _, err := f.Handle("GET", q, rt.Noop); err == nil {
+			out = append(out, q)
+		}
+	}
+	if len(out) > 9 {
+		out = out[:9]
+	}
+	return out
+}
+
+// c07OrderSweep: EXHAUSTIVE small histories. For every family of related patterns, every ordered pair
+// and ordered triple is registered one by one (rejected registrations are skipped), optionally followed
+// by the deletion of the first one; the resulting router must equal (tree dump, Lookup and ServeHTTP on
+// probes derived from the whole family) the router freshly filled with the same final set in sorted
+// order. Comparisons are done here; every failing history, and one passing history per family, is
+// emitted as a case so that the model side checks them too.
+func c07OrderSweep(rnd *hx.Rand, opts []fox.GlobalOption, cs *hx.Cases, st *hx.Stats, tier string) {
+	bases := []string{
+		"/files/*{path}", "/files/{id}/x", "/a/*{x}/b/*{y}/c", "/u/{a}/{b}", "/s/ab{x}", "/s/ab*{x}",
+		"a.{b}.c/p", "{a}.b.c/{x}", "a.b{c}.d/", "ab.c/x/*{y}", "/x/{a}/y/*{b}/z",
+	}
+	extra := 4
+	if tier == "thorough" {
+		extra = 40
+	}
+	for i := 0; i < extra; i++ {
+		bases = append(bases, rt.Pattern(rnd, hx.Pick(rnd, []int{0, 0, 50})))
+	}
+	failing, histories := 0, 0
+	for _, base := range bases {
+		fam := c07Cuts(opts, base)
+		if len(fam) < 2 {
+			continue
+		}
+		st.Count("order-sweep:families")
+		type probe struct{ h, p string }
+		var probes []probe
+		for _, q := range fam {
+			for k := 0; k < 3; k++ {
+				h, p := rt.SplitPattern(rt.Instantiate(rnd, q, false))
+				if k == 1 {
+					p = rt.PerturbPath(rnd, p)
+				}
+				if k == 2 {
+					// the slash-toggled request
+					if strings.HasSuffix(p, "/") && len(p) > 1 {
+						p = p[:len(p)-1]
+					} else {
+						p += "/"
+					}
+				}
+				if p == "" {
+					p = "/"
+				}
+				probes = append(probes, probe{h, p})
+			}
+		}
+		emittedOK := false
+		run := func(order []int, del bool) {
+			histories++
+			var human string
+			var term string
+			ok := true
+			func() {
+				defer func() {
+					if r := recover(); r != nil {
+						ok = false
+						term = "{| c7_set := []; c7_treeA := []; c7_treeB := [Node (S2B \"panic\") None []]; c7_depthB := 0; c7_maxpB := 0; c7_probes_equal := false |}"
+						human = fmt.Sprintf("FAILING HISTORY (panic %v): family %v order %v delete-first=%v", r, fam, order, del)
+					}
+				}()
+				a, err := fox.New(opts...)
+				hx.Fatal(err)
+				final := map[string]bool{}
+				var trace []string
+				for _, i := range order {
+					if _, err := a.Handle("GET", fam[i], rt.Noop); err == nil {
+						final[fam[i]] = true
+						trace = append(trace, "Handle "+fam[i])
+					}
+				}
+				if del && final[fam[order[0]]] {
+					if _, err := a.Delete("GET", fam[order[0]]); err != nil {
+						panic(fmt.Sprintf("Delete of the registered %s failed: %v", fam[order[0]], err))
+					}
+					delete(final, fam[order[0]])
+					trace = append(trace, "Delete "+fam[order[0]])
+				}
+				var set []string
+				for q := range final {
+					set = append(set, q)
+				}
+				sort.Strings(set)
+				b, err := fox.New(opts...)
+				hx.Fatal(err)
+				var items []string
+				for _, q := range set {
+					if _, err := b.Handle("GET", q, rt.Noop); err != nil {
+						panic(fmt.Sprintf("the set %v was accepted in order %v but a fresh router filled in sorted order rejects %s: %v", set, trace, q, err))
+					}
+					ps, hs, _ := b.VerifParseRoute(q)
+					if hs < 0 {
+						hs = 0
+					}
+					items = append(items, fmt.Sprintf("(%s, %s, %d, %d)", hx.Bytes("GET"), hx.Bytes(q), ps, hs))
+				}
+				var diff string
+				for _, pr := range probes {
+					for _, m := range []string{"GET", "POST", "OPTIONS"} {
+						la, lb := rt.Lookup(a, m, pr.h, pr.p), rt.Lookup(b, m, pr.h, pr.p)
+						sa, aa := rt.Serve(a, m, pr.h, pr.p)
+						sb, ab := rt.Serve(b, m, pr.h, pr.p)
+						if fmt.Sprint(la) != fmt.Sprint(lb) || sa != sb || aa != ab {
+							ok = false
+							diff = fmt.Sprintf("%s host=%q path=%q: A=%v %d %q B=%v %d %q", m, pr.h, pr.p, la, sa, aa, lb, sb, ab)
+						}
+					}
+				}
+				for _, q := range fam {
+					if a.Has("GET", q) != final[q] || b.Has("GET", q) != final[q] {
+						ok = false
+						diff = fmt.Sprintf("Has(GET,%q): A=%v B=%v registered=%v", q, a.Has("GET", q), b.Has("GET", q), final[q])
+					}
+				}
+				da, db := a.VerifDump(), b.VerifDump()
+				ta, tb := rt.RootsTerm(da, nil), rt.RootsTerm(db, nil)
+				if ta != tb {
+					ok = false
+					if diff == "" {
+						diff = "tree dumps differ"
+					}
+				}
+				term = fmt.Sprintf("{| c7_set := %s; c7_treeA := %s; c7_treeB := %s; c7_depthB := %d; c7_maxpB := %d; c7_probes_equal := %s |}",
+					hx.List(items), ta, tb, db.Depth, db.MaxParams, hx.Bool(ok))
+				human = fmt.Sprintf("order sweep: history [%s] vs fresh fill in sorted order %v; equal=%v %s", strings.Join(trace, "; "), set, ok, diff)
+			}()
+			if !ok {
+				failing++
+				if failing <= 8 {
+					cs.Add(term, human)
+				}
+			} else if !emittedOK && len(order) == 3 && del {
+				emittedOK = true
+				cs.Add(term, human)
+			}
+		}
+		n := len(fam)
+		for i := 0; i < n; i++ {
+			for j := 0; j < n; j++ {
+				if i == j {
+					continue
+				}
+				run([]int{i, j}, false)
+				run([]int{i, j}, true)
+				for k := 0; k < n; k++ {
+					if k == i || k == j {
+						continue
+					}
+					run([]int{i, j, k}, false)
+					run([]int{i, j, k}, true)
+				}
+			}
+		}
+	}
+	st.Count(fmt.Sprintf("order-sweep:histories=%d", histories))
+	st.Count(fmt.Sprintf("order-sweep:failing=%d", failing))
+}
+
+// readsAgree compares every read API that answers "is (method, pattern) registered / how many routes"
+// with the tracker (the set implied by the results of the write calls themselves): Router.Has / Route /
+// Len / Iter().Routes / Iter().All on the published state against the committed set, and, when a write
+// transaction is open, Txn.Has / Route / Len against the transaction's own set; withSnap additionally
+// takes Txn.Snapshot() (which resets the copy-on-write cache, hence not at every step) and a read-only
+// transaction. Returns a description of the first disagreement, or "".
+func readsAgree(f *fox.Router, txn *fox.Txn, tr *tracker, pool, methods []string, withSnap bool) (bad string) {
+	defer func() {
+		if r := recover(); r != nil {
+			bad = fmt.Sprintf("a read API panicked: %v", r)
+		}
+	}()
+	type view struct {
+		name  string
+		has   func(m, p string) bool
+		route func(m, p string) *fox.Route
+		ln    func() int
+		set   map[[2]string]bool
+	}
+	views := []view{{"Router", f.Has, f.Route, f.Len, tr.committed}}
+	if txn != nil {
+		views = append(views, view{"Txn(write)", txn.Has, txn.Route, txn.Len, tr.cur()})
+		if withSnap {
+			if snap := txn.Snapshot(); snap != nil {
+				defer snap.Abort()
+				views = append(views, view{"Txn(write).Snapshot()", snap.Has, snap.Route, snap.Len, tr.cur()})
+			}
+		}
+	}
+	if withSnap {
+		ro := f.Txn(false)
+		defer ro.Abort()
+		views = append(views, view{"Txn(false)", ro.Has, ro.Route, ro.Len, tr.committed})
+	}
+	keys := map[[2]string]bool{}
+	for _, v := range views {
+		for k := range v.set {
+			keys[k] = true
+		}
+	}
+	for _, m := range methods {
+		for _, p := range pool {
+			keys[[2]string{m, p}] = true
+		}
+	}
+	for _, v := range views {
+		if got := v.ln(); got != len(v.set) {
+			return fmt.Sprintf("%s.Len()=%d but %d routes are registered in that state", v.name, got, len(v.set))
+		}
+		for k := range keys {
+			if got := v.has(k[0], k[1]); got != v.set[k] {
+				return fmt.Sprintf("%s.Has(%s,%q)=%v registered=%v", v.name, k[0], k[1], got, v.set[k])
+			}
+			r := v.route(k[0], k[1])
+			if (r != nil) != v.set[k] || (r != nil && r.Pattern() != k[1]) {
+				return fmt.Sprintf("%s.Route(%s,%q) non-nil=%v registered=%v", v.name, k[0], k[1], r != nil, v.set[k])
+			}
+		}
+	}
+	// iterators of the published state
+	it := f.Iter()
+	n := 0
+	for m, r := range it.All() {
+		n++
+		if !tr.committed[[2]string{m, r.Pattern()}] {
+			return fmt.Sprintf("Iter().All() yields %s %q which is not registered", m, r.Pattern())
+		}
+	}
+	if n != len(tr.committed) {
+		return fmt.Sprintf("Iter().All() yields %d routes, %d are registered", n, len(tr.committed))
+	}
+	for k := range keys {
+		cnt := 0
+		for m, r := range it.Routes(func(yield func(string) bool) { yield(k[0]) }, k[1]) {
+			cnt++
+			if m != k[0] || r.Pattern() != k[1] {
+				return fmt.Sprintf("Iter().Routes(%s,%q) yields %s %q", k[0], k[1], m, r.Pattern())
+			}
+		}
+		want := 0
+		if tr.committed[k] {
+			want = 1
+		}
+		if cnt != want {
+			return fmt.Sprintf("Iter().Routes(%s,%q) yields %d routes, registered=%v", k[0], k[1], cnt, tr.committed[k])
+		}
+	}
+	return ""
 }
